@@ -31,6 +31,7 @@ structure FlowOK (f : Flow) : Prop where
   acyclic : Acyclic f.dag
   nodes : f.dag.nodes = List.range f.names.length
   filed : ∀ n, n ∈ f.names → n = SOURCE ∨ f.steps.any (·.1 == n) = true
+  namesNodup : f.names.Nodup
 
 theorem flowOK_addNode {f : Flow} (h : FlowOK f) (n : Str) (st : Step) :
     FlowOK (f.addNode n (some st)) ∧ n ∈ (f.addNode n (some st)).names ∧
@@ -40,9 +41,17 @@ theorem flowOK_addNode {f : Flow} (h : FlowOK f) (n : Str) (st : Step) :
   · rename_i hc
     exact ⟨h, by simpa using hc, fun m hm => hm⟩
   · rename_i hc
-    refine ⟨⟨wf_addNode h.wf _, acyclic_addNode h.wf h.acyclic _, ?_, ?_⟩, by simp, fun m hm => by simp [hm]⟩
+    refine ⟨⟨wf_addNode h.wf _, acyclic_addNode h.wf h.acyclic _, ?_, ?_, ?_⟩, by simp, fun m hm => by simp [hm]⟩
     · simp only [Dag.addNode, h.nodes, List.mem_range, Nat.lt_irrefl, ↓reduceIte, List.length_append,
         List.length_cons, List.length_nil, Nat.zero_add, List.range_succ]
+    rotate_left
+    · rw [List.nodup_append]
+      refine ⟨h.namesNodup, by simp, ?_⟩
+      intro a ha b hb
+      simp only [List.mem_singleton] at hb
+      subst hb
+      intro e; subst e
+      exact hc (by simpa using ha)
     · intro m hm
       simp only [List.mem_append, List.mem_singleton] at hm
       rcases hm with hm | hm
@@ -63,7 +72,7 @@ theorem flowOK_addEdge {f f' : Flow} {a b : Str} (h : FlowOK f) (he : f.addEdge 
       · simp only at he
         split at he
         · cases he
-          refine ⟨⟨wf_addEdge h.wf _ _, acyclic_addEdge h.wf h.acyclic _ _, ?_, h.filed⟩, rfl⟩
+          refine ⟨⟨wf_addEdge h.wf _ _, acyclic_addEdge h.wf h.acyclic _ _, ?_, h.filed, h.namesNodup⟩, rfl⟩
           simp only [dag_addEdge_nodes, h.nodes]
         · cases he
         · cases he
@@ -159,7 +168,7 @@ theorem buildFlow_ok (steps : List Step) (f : Flow) (h : buildFlow steps = .ok f
     FlowOK f ∧ ∀ st, st ∈ steps → st.name ∈ f.names := by
   rw [buildFlow_eq] at h
   have h0 : FlowOK (({ names := [], dag := Dag.empty, steps := [] } : Flow).addNode SOURCE none) := by
-    refine ⟨?_, ?_, ?_, ?_⟩
+    refine ⟨?_, ?_, ?_, ?_, ?_⟩
     · exact wf_addNode wf_empty _
     · exact acyclic_addNode wf_empty (by
         intro a hp
@@ -169,6 +178,7 @@ theorem buildFlow_ok (steps : List Step) (f : Flow) (h : buildFlow steps = .ok f
     · intro n hn
       simp [Flow.addNode] at hn
       exact Or.inl hn
+    · simp [Flow.addNode]
   obtain ⟨a1, _, a3⟩ := flowFold_ok steps _ f h0 h
   exact ⟨a1, a3⟩
 
